@@ -159,7 +159,7 @@ fn alu_body(isa: &Isa, which: usize) -> Vec<u8> {
     c
 }
 
-fn bodies(isa: &Isa) -> Vec<Vec<u8>> {
+fn bodies(isa: &Isa, prop: &str) -> Vec<Vec<u8>> {
     let e = |n: &str, f: Fields| isa.encode(isa.row(n), &f);
     let f = Fields::default;
     vec![
@@ -167,8 +167,15 @@ fn bodies(isa: &Isa) -> Vec<Vec<u8>> {
         e("ADD.L ERs,ERd", Fields { rs: 4, rd: 5, ..f() }),
         [e("MOV.W Rs,@-ERd", Fields { rs: 4, ra: 7, ..f() }), e("MOV.W @ERs+,Rd", Fields { ra: 7, rd: 6, ..f() })].concat(),
         [e("BSR d:8", Fields { data: 2, ..f() }), e("Bcc d:8", Fields { cc: 0, data: 2, ..f() }), e("RTS", f())].concat(),
-        alu_body(isa, 0),
-        alu_body(isa, 1),
+        {
+            let own = own_straight_forms(isa, prop);
+            if own.len() >= 8 {
+                own
+            } else {
+                alu_body(isa, 0)
+            }
+        },
+        [alu_body(isa, 0), alu_body(isa, 1)].concat(),
     ]
 }
 
@@ -184,7 +191,7 @@ fn branch_ccs(down: bool) -> Vec<u8> {
 pub fn loop_specs(tier: Tier) -> Vec<LoopSpec> {
     let isa = Isa::new();
     let nc = counters(&isa).len();
-    let nb = bodies(&isa).len();
+    let nb = bodies(&isa, "C02").len();
     let counts: Vec<u32> = if tier == Tier::Thorough { vec![40, 1100, 5000] } else { vec![40, 1100] };
     let mut v = Vec::new();
     for c in 0..nc {
@@ -209,10 +216,10 @@ pub fn loop_specs(tier: Tier) -> Vec<LoopSpec> {
 
 /// Build the loop: the counter register starts so that the loop makes about `count` rounds (8-bit counters wrap
 /// and simply make fewer rounds); returns (code, start registers, address behind the loop).
-pub fn build_loop(isa: &Isa, s: &LoopSpec) -> (u32, Vec<u8>, [u32; 8], u32) {
+pub fn build_loop(isa: &Isa, s: &LoopSpec, prop: &str) -> (u32, Vec<u8>, [u32; 8], u32) {
     let cs = counters(isa);
     let (_, ccode, down, size) = &cs[s.counter];
-    let body = &bodies(isa)[s.body];
+    let body = &bodies(isa, prop)[s.body];
     let base = if s.in_dram { 0x42_0000u32 } else { 0xff_c100 };
     let mut code: Vec<u8> = Vec::new();
     code.extend_from_slice(body);
@@ -245,10 +252,10 @@ pub fn build_loop(isa: &Isa, s: &LoopSpec) -> (u32, Vec<u8>, [u32; 8], u32) {
 }
 
 fn run_loop(ctx: &mut Ctx, prop: &'static str, idx: usize, s: &LoopSpec) -> usize {
-    let (base, code, er, end) = build_loop(&ctx.isa, s);
+    let (base, code, er, end) = build_loop(&ctx.isa, s, prop);
     ctx.m.poke_bytes(base, &code);
     ctx.seq_owner = Some(prop);
-    let max = 8 * s.count as usize + 64;
+    let max = (code.len() / 2 + 2) * (s.count as usize + 2) + 64;
     let n = walk(ctx, json!({"oracle": "long-program", "kind": "loop", "index": idx, "prop": prop}), base, er, 0x00, Some(end), max);
     ctx.seq_owner = None;
     n
@@ -357,13 +364,43 @@ fn run_loaded(ctx: &mut Ctx, prop: &'static str, chunk: u64, nchunks: u64) {
     ctx.m = Mach::new();
 }
 
+/// every register / immediate form that belongs to `prop` (no memory operand, no control flow), once each
+fn own_straight_forms(isa: &Isa, prop: &str) -> Vec<u8> {
+    use crate::hv::isa::{Mode, Sem, Sz, ROWS};
+    let mut c = Vec::new();
+    for (row, r) in ROWS.iter().enumerate() {
+        if !r.imp || !xseq::owners_of(r.sem).contains(&prop) {
+            continue;
+        }
+        let b = |sz: Sz| sz == Sz::B;
+        let f = match r.sem {
+            Sem::Mov { sz, mode: Mode::Reg, .. } => Some(Fields { rs: if b(sz) { 13 } else { 5 }, rd: if b(sz) { 14 } else { 6 }, ..Fields::default() }),
+            Sem::Mov { sz, mode: Mode::Imm, .. } => Some(Fields { rd: if b(sz) { 14 } else { 6 }, data: 0x8001_7f03 & sz.mask(), ..Fields::default() }),
+            Sem::Alu1 { sz, .. } => Some(Fields { rd: if b(sz) { 12 } else { 4 }, ..Fields::default() }),
+            Sem::Adds(_) | Sem::Subs(_) => Some(Fields { rd: 4, ..Fields::default() }),
+            Sem::Alu2 { sz, imm, .. } => Some(Fields { rs: if b(sz) { 13 } else { 5 }, rd: if b(sz) { 14 } else { 6 }, data: if imm { 0x8001_7f03 & sz.mask() } else { 0 }, ..Fields::default() }),
+            Sem::Mulxu(sz) => Some(Fields { rs: if b(sz) { 13 } else { 5 }, rd: 6, ..Fields::default() }),
+            Sem::Bit { loc: Mode::Reg, .. } => Some(Fields { rd: 12, rn: 13, bitn: 5, ..Fields::default() }),
+            Sem::StcB => Some(Fields { rd: 12, ..Fields::default() }),
+            _ => None,
+        };
+        if let Some(f) = f {
+            c.extend(isa.encode(row, &f));
+        }
+    }
+    c
+}
+
 fn run_straight_or_idle(ctx: &mut Ctx, prop: &'static str, chunk: u64) {
     let isa = Isa::new();
     ctx.seq_owner = Some(prop);
     if chunk < 2 {
         let base = if chunk == 0 { 0xff_c100u32 } else { 0x42_0000 };
         let mut code: Vec<u8> = Vec::new();
-        let unit = [alu_body(&isa, 0), alu_body(&isa, 1)].concat();
+        let mut unit = own_straight_forms(&isa, prop);
+        if unit.len() < 8 {
+            unit = [alu_body(&isa, 0), alu_body(&isa, 1)].concat();
+        }
         while code.len() + unit.len() < 0x2f00 {
             code.extend_from_slice(&unit);
         }
